@@ -139,6 +139,10 @@ type flow struct {
 
 func b(x bool) string { return emit.Bool(x) }
 
+func coqMode(m string) string {
+	return map[string]string{"": "MDefault", "form_post": "MFormPost", "query": "MQuery"}[m]
+}
+
 func flows() []flow {
 	var fs []flow
 	add := func(f flow) { fs = append(fs, f) }
@@ -170,7 +174,7 @@ func flows() []flow {
 	for _, cn := range []string{"web", "spa"} {
 		for _, mode := range []string{"", "form_post"} {
 			c := clients[cn]
-			add(flow{coq: emit.Ctor("FCallbackCode", c.coq), name: "callback_code", tags: []string{"client=" + cn, "mode=" + mode}, redirect: c.redirect, thorough: mode != "",
+			add(flow{coq: emit.Ctor("FCallbackCode", c.coq, coqMode(mode)), name: "callback_code", tags: []string{"client=" + cn, "mode=" + mode}, redirect: c.redirect, thorough: mode != "",
 				prep: func(e env) func() *opfix.Resp {
 					id := e.loggedIn(c, "code", full, mode)
 					return func() *opfix.Resp { return e.f.Callback(e.r, id) }
@@ -185,7 +189,7 @@ func flows() []flow {
 				if withAT {
 					rt = "id_token token"
 				}
-				add(flow{coq: emit.Ctor("FCallbackImplicit", c.coq, b(withAT)), name: "callback_implicit", tags: []string{"client=" + cn, "at=" + b(withAT), "mode=" + mode}, redirect: c.redirect, thorough: mode != "",
+				add(flow{coq: emit.Ctor("FCallbackImplicit", c.coq, b(withAT), coqMode(mode)), name: "callback_implicit", tags: []string{"client=" + cn, "at=" + b(withAT), "mode=" + mode}, redirect: c.redirect, thorough: mode != "",
 					prep: func(e env) func() *opfix.Resp {
 						id := e.loggedIn(c, rt, noOff, mode)
 						return func() *opfix.Resp { return e.f.Callback(e.r, id) }
